@@ -379,21 +379,23 @@ Fixpoint first_time (ops : list (Z * Z)) : Z :=
 Definition sorted_all (ops : list (Z * Z)) : bool := sorted_from (first_time ops) ops.
 
 Lemma run_lru_justified c : 0 <= c_period c -> forall ops past st m,
-  Inv c past st -> times_le past m -> sorted_from m ops = true ->
+  Inv c past st -> times_le past m -> sorted_from m ops = true -> stable ops = true ->
   all_justified c past ops (run_lru c st ops) = true.
 Proof.
-  intros HP. induction ops as [|[k t] r IH]; intros past st m HI Hle Hs; [reflexivity|].
-  cbn [run_lru]. cbn [sorted_from] in Hs.
+  intros HP. induction ops as [|[k t] r IH]; intros past st m HI Hle Hs Hstab; [reflexivity|].
+  cbn [run_lru]. cbn [sorted_from] in Hs. unfold stable in Hstab. cbn [forallb fst snd] in Hstab.
+  apply andb_true_iff in Hstab. destruct Hstab as [Hst1 Hstab]. fold (stable r) in Hstab.
   assert (Hmono : forall x, Inv c past st -> Inv c (past ++ x) st).
   { intros x [H1 H2]. split; (eapply Forall_impl; [|eassumption]); intros e; [apply just_acc_mono|apply just_pr_mono]. }
   destruct (k =? -2) eqn:E2.
   - apply Z.eqb_eq in E2. subst k. cbn [all_justified]. change (-2 <? 0) with true in Hs.
-    apply (IH (past ++ [(-2, t)]) (reload_l st t) m); [|intros k s Hin Hk; apply in_app_or in Hin; destruct Hin as [Hin|[Hin|[]]]; [apply (Hle k s Hin Hk)|inversion Hin; subst; lia]|exact Hs].
+    change (-2 =? -2) with true in Hst1. cbn [negb orb] in Hst1. unfold rl_cfg. rewrite Hst1.
+    apply (IH (past ++ [(-2, t)]) (reload_l st t) m); [|intros k s Hin Hk; apply in_app_or in Hin; destruct Hin as [Hin|[Hin|[]]]; [apply (Hle k s Hin Hk)|inversion Hin; subst; lia]|exact Hs|exact Hstab].
     destruct (Hmono [(-2, t)] HI) as [H1 H2]. split; assumption.
   - destruct (record_and_check_l c st k t) as [st' d] eqn:ER. cbn [all_justified].
     destruct (k <? 0) eqn:Ek.
     + unfold record_and_check_l in ER. rewrite Ek in ER. inversion ER; subst. cbn [andb].
-      apply (IH (past ++ [(k, t)]) st' m); [apply Hmono; exact HI| |exact Hs].
+      apply (IH (past ++ [(k, t)]) st' m); [apply Hmono; exact HI| |exact Hs|exact Hstab].
       intros k' s Hin Hk. apply in_app_or in Hin. destruct Hin as [Hin|[Hin|[]]]; [apply (Hle k' s Hin Hk)|inversion Hin; subst; lia].
     + apply andb_true_iff in Hs. destruct Hs as [Hmt Hs]. apply Z.leb_le in Hmt.
       assert (Hk : 0 <= k) by lia.
@@ -401,27 +403,28 @@ Proof.
       destruct (step_justified c HP past st k t st' d HI Hle' Hk ER) as [HI' Hd].
       apply andb_true_iff. split.
       * destruct d; [|reflexivity]. rewrite (Hd eq_refl). replace (0 <=? k) with true by (symmetry; apply Z.leb_le; exact Hk). reflexivity.
-      * apply (IH (past ++ [(k, t)]) st' t); [exact HI'| |exact Hs].
+      * apply (IH (past ++ [(k, t)]) st' t); [exact HI'| |exact Hs|exact Hstab].
         intros k' s Hin Hk'. apply in_app_or in Hin. destruct Hin as [Hin|[Hin|[]]]; [apply (Hle' k' s Hin Hk')|inversion Hin; subst; lia].
 Qed.
 
 (* central theorem.  Well-formed: the input decodes, and either no dictionary can overflow (distinct keys <= both sizes:
    the reference automaton decides), or period >= 0 and the request times are non-decreasing (LRU eviction possible:
-   every denial must be justified) *)
+   every denial must be justified); no reload changes period/stay/threshold *)
 Definition wf_C53 (i : val) : bool :=
   match dec_C53 i with
-  | Some x => no_evict x || ((0 <=? c_period (in_cfg x)) && sorted_all (in_ops x))
+  | Some x => stable (in_ops x) && (no_evict x || ((0 <=? c_period (in_cfg x)) && sorted_all (in_ops x)))
   | None => false
   end.
 Theorem prop_C53_of_model : forall i, wf_C53 i = true -> kf_C53 i = 0 -> prop_C53 i (run_C53 i) = true.
 Proof.
   intros i Hwf _. unfold wf_C53 in Hwf. unfold prop_C53, run_C53. destruct (dec_C53 i) as [x|]; [|discriminate].
-  rewrite bools_of_vbool. unfold run_inp. destruct (no_evict x) eqn:Ene.
+  rewrite bools_of_vbool. unfold run_inp. apply andb_true_iff in Hwf. destruct Hwf as [Hstab Hwf]. rewrite Hstab.
+  cbn [negb]. rewrite andb_true_r. destruct (no_evict x) eqn:Ene.
   - rewrite (run_refines (in_cfg x) (in_ops x) empty_state (fun _ => k0)).
     + apply list_bool_eqb_refl.
     + intros k. split; [exact I|reflexivity].
   - cbn [orb] in Hwf. apply andb_true_iff in Hwf. destruct Hwf as [HP Hs]. apply Z.leb_le in HP.
-    apply (run_lru_justified (in_cfg x) HP (in_ops x) [] _ (first_time (in_ops x))); [split; constructor|intros k s []|exact Hs].
+    apply (run_lru_justified (in_cfg x) HP (in_ops x) [] _ (first_time (in_ops x))); [split; constructor|intros k s []|exact Hs|exact Hstab].
 Qed.
 
 Theorem model_is_reference c ops : run_ops c empty_state ops = spec_run c (fun _ => k0) ops.
